@@ -220,6 +220,9 @@ func (r *recorder) writeTrace(path string, sc *Script, ncalls int) (int, []strin
 				if h, ok := e["h"].(string); ok {
 					m["h"] = h
 				}
+				if ms, ok := e["ms"].(int); ok {
+					m["ms"] = ms
+				}
 				put(m)
 			}
 			continue
